@@ -10,6 +10,7 @@ import itertools
 
 import z3
 
+from checks import templates
 from spv import bv
 from spv.harness import Harness, result
 
@@ -25,8 +26,8 @@ KINDS4 = KINDS + ("bool",)
 # a fifth kind, single-comparison harness only: "str" = StrParameter(label, raw=v) (an enumerated parameter: derived value a label - possibly the
 # EMPTY string -, raw value an integer); labels and literals are compared as strings
 KINDS5 = KINDS4 + ("str",)
-LABELS = ("", "ON", "5", "abc")
-LITERALS = ("0", "5", "-2", "2.5", "abc", "")
+LABELS = ("", "ON", "5", "abc", "ON ")          # ("ON " with a trailing blank: white space is part of a label / literal)
+LITERALS = ("0", "5", "-2", "2.5", "abc", "", "ON ")
 
 META = {
     "level": "model_checking",
@@ -229,6 +230,43 @@ class WideH(Harness):
         cls = judge_bool(f"{sp} {lit}", got, exc, REL[OPS[sp]](v, z3.BitVecVal(int(lit), W)), obl)
         return result(cls, obl, observe={"result": _r(got) if exc is None else None, "exc": exc, "cls": "ran"},
                       inputs={"v0": bv.SymInt(v), "op": sp, "lit": lit, "cal": cal, "what": what})
+
+
+LOADED = [  # criteria as they are written in a DOCUMENT (loaded with from_xtce), literal taken from LOADED_LITS
+    lambda lit: templates.CMPD("P0", lit),                                                             # Comparison, optional attributes omitted
+    lambda lit: templates.CMP("P0", lit, "!=", cal="true"),
+    lambda lit: "<xtce:BooleanExpression>" + templates.COND("P0", "==", v=lit, lcal="true") + "</xtce:BooleanExpression>",
+    lambda lit: templates.CMPLIST(templates.CMP("P0", lit, "==", cal="true"), templates.CMP("P0", "-40000", ">=", cal="false")),
+]
+LOADED_LITS = ("ON", "ON ", " ON", "5", " 5")
+
+
+class LoadedH(Harness):
+    """criteria objects that come out of the LOADER: a small document whose child container carries the criteria is loaded with from_xtce and the
+    loaded criteria are evaluated on a packet whose parameter is a label (white space included) or an integer"""
+    kind = "loaded"
+
+    def run(self, ctx):
+        import io
+        lib = self.lib
+        cfg = choose(ctx, "cfg", len(LOADED) * len(LOADED_LITS) * 2)
+        form, lit, kind = cfg % len(LOADED), LOADED_LITS[(cfg // len(LOADED)) % len(LOADED_LITS)], ("str", "int")[cfg // (len(LOADED) * len(LOADED_LITS))]
+        xml = templates.doc(types=templates.I("U8_T", 8), params=[("P0", "U8_T")], root_entries=[],
+                            children=templates.cont("CH", ["P0"], "CCSDSPacket", LOADED[form](lit)))
+        crits = lib.definitions.XtcePacketDefinition.from_xtce(io.BytesIO(xml)).containers["CH"].restriction_criteria
+        P = Params(ctx, lib, (kind,))
+        got, exc = outcome(lambda: all(c.evaluate(P.packet) for c in crits))
+        sel = P.selected(0, True)
+        litv = literal_for(sel[0], lit)
+        inputs = dict(P.inputs(), form=form, lit=lit)
+        if litv is None:
+            return result("uncoercible", [], observe={"cls": "ran"}, inputs=inputs)
+        want = rel_term("ne" if form == 1 else "eq", sel, litv)
+        if form == 3:
+            want = z3.And(want, P.v[0] >= -40000)
+        obl = []
+        cls = judge_bool(f"loaded criteria form {form} literal {lit!r}", got, exc, want, obl)
+        return result(cls, obl, observe={"result": _r(got) if exc is None else None, "exc": exc, "cls": "ran"}, inputs=inputs)
 
 
 HIST_OPS = ("==", "!=", "<", "gt", "leq", ">=")
@@ -435,7 +473,7 @@ class Twin(ComparisonH):
 
 def make(job):
     lib = bv.install(96 if job["h"] == "wide" else 64)
-    h = {"comparison": ComparisonH, "wide": WideH, "history": HistoryH, "tree": TreeH, "lookup": LookupH, "twin": Twin}[job["h"]](job)
+    h = {"comparison": ComparisonH, "loaded": LoadedH, "wide": WideH, "history": HistoryH, "tree": TreeH, "lookup": LookupH, "twin": Twin}[job["h"]](job)
     h.lib = lib
     return h
 
@@ -445,6 +483,7 @@ KINDSETS = [("int", "int", "int"), ("int", "float", "cal"), ("cal", "int", "floa
 
 def jobs(tier):
     out = [{"name": "comparison", "h": "comparison", "params": {}, "split": 32, "chunk": 40, "must_reach": ["True", "False", "uncoercible"]}]
+    out.append({"name": "loaded-criteria", "h": "loaded", "params": {}, "split": 8, "chunk": 40, "must_reach": ["True", "False"]})
     out.append({"name": "wide-integers", "h": "wide", "params": {}, "split": 16, "chunk": 40, "must_reach": ["True", "False"]})
     out.append({"name": "history", "h": "history", "params": {}, "split": 32, "chunk": 40, "must_reach": ["True/False", "False/True"]})
     sh = shapes(4 if tier == "quick" else 5, 3)
@@ -507,6 +546,14 @@ def concrete(req):
     from space_packet_parser import common
     from space_packet_parser.xtce import comparisons as C, encodings
     i = req["input"]
+    if req["kind"] == "loaded":
+        import io
+        from space_packet_parser.xtce import definitions
+        xml = templates.doc(types=templates.I("U8_T", 8), params=[("P0", "U8_T")], root_entries=[],
+                            children=templates.cont("CH", ["P0"], "CCSDSPacket", LOADED[i["form"]](i["lit"])))
+        crits = definitions.XtcePacketDefinition.from_xtce(io.BytesIO(xml)).containers["CH"].restriction_criteria
+        pkt, _ = _mkpacket(i)
+        return _enc_result(lambda: all(c.evaluate(pkt) for c in crits))
     if req["kind"] == "wide":
         pkt = packets_mod().CCSDSPacket(raw_data=b"")
         pkt["P0"] = common.IntParameter(i["v0"])
@@ -607,6 +654,18 @@ def judge(req, got):
         desc = f"Comparison(P {i['op']} {i['lit']}, calibrated={i['cal']}, in_packet={i['in_packet']}) kind={i['kinds'][0]} value={a}"
         if got["exc"] is not None or got["result"] is not want:
             return "reproduced", f"{desc}: expected {want}, got {got['result']!r} exc={got['exc']}"
+        return "not-reproduced", "agrees"
+    if req["kind"] == "loaded":
+        t, a = _sel(i, 0, True)
+        try:
+            b = i["lit"] if t is str else int(i["lit"])
+        except ValueError:
+            return "not-reproduced", "uncoercible literal: no statement"
+        want = (a != b) if i["form"] == 1 else (a == b)
+        if i["form"] == 3:
+            want = want and i["v0"] >= -40000
+        if got["exc"] is not None or got["result"] is not want:
+            return "reproduced", f"criteria form {i['form']} with the literal {i['lit']!r} as loaded from a document, on the value {a!r}: expected {want}, got {got['result']!r} exc={got['exc']}"
         return "not-reproduced", "agrees"
     if req["kind"] == "wide":
         want = PYREL[OPS[i["op"]]](i["v0"], int(i["lit"]))
